@@ -111,3 +111,10 @@ def run(ctx):
                 ctx.ob('WHEN-FULL', '%s:no-reset' % name, not resets, g.loc(resets[0][1]) if resets else g.loc(g.body), 'fill counter %s' % ('is never reset in the write worker' if not resets else
                        'is reset here (%s): samples carried from the previous call are dropped' % [r[0] for r in resets]), None)
     ctx.require(seen >= 30, 'only %d codec write slot functions found' % seen)
+
+    # shared facts that are also split-independence conditions: PEAK tie handling (first occurrence wins across calls) and the SDS header writer
+    # restoring the encoder counters around its temporary flush (a header update between two writes must not change later bytes)
+    from rules.C18 import peak_facts
+    from rules.C11 import block_restore
+    peak_facts(ctx, prog)
+    block_restore(ctx, prog)
